@@ -4,7 +4,10 @@ strict loader), exhaustive enumeration by node count, Hypothesis strategies.
 A spec is a JSON-able nested list:
     ["S", value, anchor|None]            scalar (None/bool/int/float/str)
     ["A", name]                          alias of a previously anchored node
-    ["M", [[key, spec], ...], anchor]    mapping (key: str|int, or "<<" merge)
+    ["M", [[key, spec], ...], anchor]    mapping (key: str|int, or "<<" merge;
+                                         ["KD", name, anchor] defines an
+                                         anchored key, ["KA", anchor] uses
+                                         it again as an aliased key)
     ["L", [spec, ...], anchor]           sequence
     ["T", [value, ...], anchor]          !!set of scalar members
 """
@@ -116,7 +119,12 @@ def _block(spec, indent):
     out = []
     if kind == "M":
         for key, val in spec[1]:
-            ktxt = "<<" if key == "<<" else scalar_text(key)
+            if isinstance(key, list) and key[0] == "KD":
+                ktxt = "&%s %s" % (key[2], scalar_text(key[1]))
+            elif isinstance(key, list) and key[0] == "KA":
+                ktxt = "*%s " % key[1]
+            else:
+                ktxt = "<<" if key == "<<" else scalar_text(key)
             if _is_inline(val):
                 out.append("%s%s: %s" % (pad, ktxt, _inline(val)))
             else:
